@@ -3,6 +3,8 @@ package harness
 import (
 	"crypto/tls"
 	"fmt"
+	"net"
+	"os"
 	"time"
 
 	"go.nanomsg.org/mangos/v3"
@@ -267,5 +269,212 @@ func c12Run(w *W) {
 }
 
 func init() {
-	register(&Scenario{Name: "api-errors", Prop: "C12", Horizon: time.Hour, Run: c12Run})
+	register(&Scenario{Name: "api-errors", Prop: "C12", Horizon: time.Hour, Weight: 15, Run: c12Run})
+}
+
+// c12Real: "a Listen or Dial that fails for configuration or network reasons
+// can be corrected and retried" on the real OS transports (engine R): the
+// failure is provoked, corrected, and the retried endpoint must carry traffic.
+func c12Real(w *W) {
+	tran := []string{"tcp", "tls+tcp", "ipc", "ws", "wss"}[w.Choose(simrt.SShape, 5)]
+	side := []string{"listen-config", "listen-inuse", "dial-refused"}[w.Choose(simrt.SShape, 3)]
+	w.SetShape("tran", tran)
+	w.SetShape("case", side)
+	srv, cli := tlsConfigs()
+	a, b := w.Sock("pair"), w.Sock("pair")
+	defer a.Close()
+	defer b.Close()
+	mustSet(w, a, mangos.OptionRecvDeadline, 5*time.Second)
+	mustSet(w, b, mangos.OptionRecvDeadline, 5*time.Second)
+	needTLS := tran == "tls+tcp" || tran == "wss"
+	url := tran + "://127.0.0.1:0"
+	sockPath := ""
+	switch tran {
+	case "ipc":
+		sockPath = fmt.Sprintf("%s/verif-c12-%d-%d.sock", os.TempDir(), os.Getpid(), w.RunIdx)
+		os.Remove(sockPath)
+		w.OnCleanup(func() { os.Remove(sockPath) })
+		url = "ipc://" + sockPath
+	case "ws", "wss":
+		url += "/sp"
+	}
+	bound := func(d time.Duration, label string, fn func() error) (error, bool) {
+		c := w.Do(label, func() (interface{}, error) { return nil, fn() })
+		if !c.Wait(d) {
+			w.Failf("C12/call-never-returns:"+label, "%s over %s did not return within %v", label, tran, d)
+			return nil, false
+		}
+		w.Op("%s -> %v", label, errName(c.Err))
+		return c.Err, true
+	}
+	l, err := a.NewListener(url, nil)
+	if err != nil {
+		w.Failf("HARNESS/newlistener", "%v", err)
+		return
+	}
+	switch side {
+	case "listen-config":
+		if !needTLS {
+			return
+		}
+		e1, ok := bound(10*time.Second, "Listen(no TLS config)", l.Listen)
+		if !ok {
+			return
+		}
+		if e1 == nil {
+			w.Failf("HARNESS/tls", "Listen without config succeeded")
+			return
+		}
+		if _, ok := bound(10*time.Second, "SetOption(TLSConfig)", func() error { return l.SetOption(mangos.OptionTLSConfig, srv) }); !ok {
+			return
+		}
+		e2, ok := bound(10*time.Second, "Listen(corrected)", l.Listen)
+		if !ok {
+			return
+		}
+		if e2 != nil {
+			w.Failf("C12/retry-failed:"+tran, "%s: Listen failed for lack of a TLS config (%v); after SetOption(TLSConfig) the retry returned %v", tran, e1, e2)
+			return
+		}
+		w.Probe("corrected-tls-listen")
+	case "listen-inuse":
+		// somebody else holds the address first
+		var blocker interface{ Close() error }
+		if tran == "ipc" {
+			bl, err := net.Listen("unix", sockPath)
+			if err != nil {
+				return
+			}
+			blocker = bl
+		} else {
+			bl, err := net.Listen("tcp", "127.0.0.1:0")
+			if err != nil {
+				return
+			}
+			blocker = bl
+			url = tran + "://" + bl.Addr().String()
+			if tran == "ws" || tran == "wss" {
+				url += "/sp"
+			}
+			l, err = a.NewListener(url, nil)
+			if err != nil {
+				w.Failf("HARNESS/newlistener", "%v", err)
+				return
+			}
+		}
+		if needTLS {
+			_ = l.SetOption(mangos.OptionTLSConfig, srv)
+		}
+		e1, ok := bound(10*time.Second, "Listen(address in use)", l.Listen)
+		if !ok {
+			return
+		}
+		if e1 == nil {
+			if tran == "ipc" {
+				// ipc removes what it takes for a stale socket file; not a failure case then
+				blocker.Close()
+				break
+			}
+			w.Failf("HARNESS/inuse", "Listen on a bound address succeeded")
+			return
+		}
+		blocker.Close()
+		if tran == "ipc" {
+			os.Remove(sockPath)
+		}
+		time.Sleep(20 * time.Millisecond)
+		e2, ok := bound(10*time.Second, "Listen(retry, address free)", l.Listen)
+		if !ok {
+			return
+		}
+		if e2 != nil {
+			w.Failf("C12/retry-failed:"+tran, "%s: Listen failed while the address was in use (%v); after it was freed the retry on the same listener returned %v", tran, e1, e2)
+			return
+		}
+		w.Probe("corrected-address-in-use")
+	case "dial-refused":
+		// nobody listens yet: a synchronous Dial fails and can be retried once the listener is up
+		probe, err := net.Listen("tcp", "127.0.0.1:0")
+		if err != nil {
+			return
+		}
+		target := probe.Addr().String()
+		probe.Close()
+		if tran == "ipc" {
+			target = sockPath
+		}
+		durl := tran + "://" + target
+		if tran == "ws" || tran == "wss" {
+			durl += "/sp"
+		}
+		dopts := map[string]interface{}{mangos.OptionDialAsynch: false}
+		if needTLS {
+			dopts[mangos.OptionTLSConfig] = cli
+		}
+		d, err := b.NewDialer(durl, dopts)
+		if err != nil {
+			w.Failf("HARNESS/newdialer", "%v", err)
+			return
+		}
+		e1, ok := bound(20*time.Second, "Dial(nobody listens)", d.Dial)
+		if !ok {
+			return
+		}
+		if e1 == nil {
+			return
+		}
+		lopts := map[string]interface{}{}
+		if needTLS {
+			lopts[mangos.OptionTLSConfig] = srv
+		}
+		if e, ok := bound(10*time.Second, "peer Listen", func() error { return a.ListenOptions(durl, lopts) }); !ok || e != nil {
+			return // the port may have been taken meanwhile: nothing to judge
+		}
+		e2, ok := bound(20*time.Second, "Dial(retry)", d.Dial)
+		if !ok {
+			return
+		}
+		if e2 != nil {
+			w.Failf("C12/dial-retry-refused", "%s: a synchronous Dial failed (%v); the listener is up now, the retry on the same dialer returned %v", tran, e1, e2)
+			return
+		}
+		w.Probe("corrected-refused-dial")
+		// traffic b -> a
+		time.Sleep(50 * time.Millisecond)
+		if err := b.Send([]byte("after-retry")); err != nil {
+			w.Failf("C12/retry-carries-no-traffic:"+tran, "Send after the corrected Dial: %v", err)
+			return
+		}
+		if m, err := a.Recv(); err != nil || string(m) != "after-retry" {
+			w.Failf("C12/retry-carries-no-traffic:"+tran, "%s: the corrected Dial attached nothing usable: Recv (%q, %v)", tran, m, err)
+			return
+		}
+		w.Delivery++
+		return
+	}
+	// the corrected listener must carry traffic
+	dopts := map[string]interface{}{}
+	if needTLS {
+		dopts[mangos.OptionTLSConfig] = cli
+	}
+	if e, ok := bound(20*time.Second, "peer Dial", func() error { return b.DialOptions(l.Address(), dopts) }); !ok || e != nil {
+		if ok {
+			w.Failf("C12/retry-carries-no-traffic:"+tran, "%s: a peer cannot dial the corrected listener at %s: %v", tran, l.Address(), e)
+		}
+		return
+	}
+	time.Sleep(50 * time.Millisecond)
+	if err := b.Send([]byte("after-retry")); err != nil {
+		w.Failf("C12/retry-carries-no-traffic:"+tran, "Send: %v", err)
+		return
+	}
+	if m, err := a.Recv(); err != nil || string(m) != "after-retry" {
+		w.Failf("C12/retry-carries-no-traffic:"+tran, "%s: the corrected listener carries no traffic: Recv (%q, %v)", tran, m, err)
+		return
+	}
+	w.Delivery++
+}
+
+func init() {
+	register(&Scenario{Name: "corrected-retry-real-transports", Prop: "C12", Engine: "R", Weight: 1, Run: c12Real})
 }
